@@ -288,7 +288,8 @@ def load_dir(d):
     if ren:
         _apply_field_renames(js, ren)
     from .inline import inline_new_helpers, fn_renames, apply_fn_renames
-    from .inline import changed_fns, split_selector_joins, fold_constant_switches
+    from .inline import changed_fns, split_selector_joins, fold_constant_switches, set_enums, propagate_moves, desugar_mem_replace
+    set_enums(adts)
     fren = fn_renames(js)
     apply_fn_renames(js, fren)
     changed = changed_fns(js)
@@ -299,6 +300,8 @@ def load_dir(d):
             continue
         for k, f in j["fns"].items():
             if k in changed or f.get("root") in changed:
+                desugar_mem_replace(f)
+                propagate_moves(f)
                 fold_constant_switches(f)
                 n = split_selector_joins(f)
                 if n:
